@@ -175,11 +175,21 @@ def universes(draw, max_classes=4, xml=True, inheritance=True, multi_ns=True, fa
                         and not b.get("type_name") and a["extends"] is None and b["extends"] is None \
                         and not any(c["extends"] in (a["name"], b["name"]) for c in classes):
                     b["type_name"] = a["name"]
+                    # ... with an equally named member whose occurrence bounds differ
+                    if not any(f[0] == "dup" for f in a["fields"] + b["fields"]):
+                        dt = draw(prim_trefs(facets=False, exclude=tuple(prim_exclude) + ("ByteArray",)))
+                        a["fields"].append(["dup", dict(dt, occ={"min": 0, "max": 1, "nillable": True})])
+                        b["fields"].append(["dup", dict(dt, occ={"min": 0, "max": "unbounded", "nillable": True})])
                     break
             else:
                 continue
             break
-    return {"tns": tns, "nss": nss, "classes": classes, "enums": enums}
+    U = {"tns": tns, "nss": nss, "classes": classes, "enums": enums}
+    pair = [(a["name"], b["name"]) for a in classes for b in classes
+            if b.get("type_name") == a["name"]]
+    if pair:
+        U["same_named"] = list(pair[0])
+    return U
 
 
 @st.composite
